@@ -478,3 +478,6 @@ ob("king_capture_lemma_{i}", "chess::verif_chess::inst::king_capture_lemma::sq{i
 ob("ep_invariant_lemma", "chess::verif_chess::inst::ep_invariant_lemma", ["C02", "C01", "C12"],
    "rules only: spec::apply records an e.p. file only after a pawn double step, with that pawn on the 4th/5th rank of the file and the skipped square empty (WF7 established)",
    ["spec::apply (lemma)"], timeout=600)
+ob("get_moves_frame", "chess::verif_chess::inst::get_moves_frame", ["C03", "C01"],
+   "WHOLE Game::get_moves vs abstract callees (generator emits nothing, any is_targeted answers, both modes): every field of the game unchanged, list empty -- covers the statements between the sliced regions",
+   ["Game::get_moves (whole function, abstract callees)"], timeout=900)
